@@ -271,7 +271,7 @@ pub fn main(args: &Args) -> Report {
     );
     rep.assume("only 'never stops' is decided by the clock, with a deliberately huge bound");
     let t = args.thorough();
-    let n = if t { 6000 } else { 800 };
+    let n = if t { 40_000 } else { 800 };
     let deadline = Instant::now() + Duration::from_secs(args.budget_s(100, 1000));
     let seed = args.seed;
     let (mut out, _) = par_cases(n, threads(), Some(deadline), |k| {
